@@ -5,6 +5,7 @@ import "fv/internal/core"
 // Registry maps property ids to their checks.
 var Registry = map[string]func(*core.Ctx){
 	"C01": C01,
+	"C05": C05,
 	"C06": C06,
 	"C13": C13,
 	"C14": C14,
